@@ -684,6 +684,7 @@ func init() {
 		Stub:        []string{"net.Listener (SimListener)", "net.Conn (SimConn)", "Backend/LMTPSession/StatusCollector caller (SimBackend)", "clock (synctest)", "LMTP client (raw driver)"},
 		Assumptions: []string{"statuses a backend set explicitly before it panicked are honoured; the others must not be 2xx", "out-of-contract backends are judged only for no deadlock / no crash"},
 		Required:    []string{"backend_fails_early_during_LAST_chunk", "backend_returns_nil_early", "backend_panic_logged_to_slow_sink", "duplicate_recipient", "out_of_contract_backend", "rejected_rcpt_interleaved", "backend_panic", "earlier_transaction_BDAT_refused_for_size", "earlier_transaction_BDAT_malformed_then_RSET", "earlier_transaction_completed_with_BDAT", "read_timeout_inside_LMTP_DATA_peer_keeps_listening", "earlier_transaction_aborted_delivery_panics_late", "malformed_BDAT_refused_between_the_recipients", "unbuffered_network_long_message_backend_done_early"},
+		Instr:       true,
 		QuickRuns:   200000, ThoroughRuns: 4000000,
 	})
 }
